@@ -49,6 +49,18 @@ def planar_mesh(rng):
     return v, t
 
 
+def near_pole(s, j, ang):
+    """the points s (rows, on the unit sphere) rotated so that point j lies at polar angle `ang` from the north pole"""
+    a = np.asarray(s[j], float) / np.linalg.norm(s[j])
+    b = np.array([np.sin(ang), 0.0, np.cos(ang)])
+    w = np.cross(a, b); c = float(a @ b)
+    if np.linalg.norm(w) < 1e-14:
+        return np.array(s, float)
+    K = np.array([[0, -w[2], w[1]], [w[2], 0, -w[0]], [-w[1], w[0], 0]])
+    R = np.eye(3) + K + K @ K / (1.0 + c)
+    return np.asarray(s, float) @ R.T
+
+
 class Check(BaseCheck):
     id = "C18"
     audit_mod = "LapyVerif.Audit.C18"
@@ -151,28 +163,29 @@ class Check(BaseCheck):
             if res[0] != "ok" or r != "ok %d" % seen.get("n", -1):
                 fails.append(core.Failure("correspondence", "spherical_conformal_map: landmark count vs model", "impl %s landmarks %s model %s" % (res[0], seen.get("n"), r), dict(case, kind="scm")))
                 continue
-            sph = res[1]
-            with core.quiet():
-                with capture.capture() as calls:
-                    mob = core.call(conformal.mobius_area_correction_spherical, m, sph)
-            if mob[0] == "ok" and calls.minimize:
-                x = calls.minimize[0]["result"].x
-                z = conformal.stereographic(sph)
-                rm = wire.Reply(drv.ask("mobius %s %s" % (rawc([x[0] + 1j * x[1], x[2] + 1j * x[3], x[4] + 1j * x[5], x[6] + 1j * x[7]]), cfl(z))))
-                if core.relerr(mob[1][0], rm.v3s()) > 1e-9:
-                    fails.append(core.Failure("correspondence", "mobius_area_correction_spherical vs model", "", dict(case, kind="scm")))
-                fun = calls.minimize[0]["fun"]
-                stats.monitor("minimize monitored")
-                if fun(calls.minimize[0]["result"].x) > fun(calls.minimize[0]["x0"]) + 1e-12:
-                    fails.append(core.Failure("monitor", "minimize does not increase the objective", "", dict(case, kind="scm")))
-                # the objective handed to the optimiser is the model's area-distortion objective (at the start, at the result, at a random point)
-                for xx in (calls.minimize[0]["x0"], x, np.asarray(x) + 0.05 * gen.rng_for(self.seed, "c18obj").normal(size=8)):
-                    xx = np.asarray(xx, float)
-                    ro = wire.Reply(drv.ask("darea %s %s %s %s" % (wire.verts(m.v), wire.elems(m.t), rawc([xx[0] + 1j * xx[1], xx[2] + 1j * xx[3], xx[4] + 1j * xx[5], xx[6] + 1j * xx[7]]), wire.verts(sph))))
-                    if ro.status != "ok" or abs(float(fun(xx)) - ro.flt()) > 1e-9 * max(1.0, abs(float(fun(xx)))):
-                        fails.append(core.Failure("correspondence", "Moebius area-distortion objective vs model", "at x=%s: implementation %.10g" % (np.round(xx, 3).tolist(), float(fun(xx))), dict(case, kind="scm")))
-                        break
-                stats.monitor("Moebius objective compared with the model")
+            # the sphere map as returned, and the same map rotated so that one vertex lies 1e-4 rad from the projection pole
+            for sph in (res[1], near_pole(res[1], len(res[1]) // 3, 1e-4)):
+                with core.quiet():
+                    with capture.capture() as calls:
+                        mob = core.call(conformal.mobius_area_correction_spherical, m, sph)
+                if mob[0] == "ok" and calls.minimize:
+                    x = calls.minimize[0]["result"].x
+                    z = conformal.stereographic(sph)
+                    rm = wire.Reply(drv.ask("mobius %s %s" % (rawc([x[0] + 1j * x[1], x[2] + 1j * x[3], x[4] + 1j * x[5], x[6] + 1j * x[7]]), cfl(z))))
+                    if core.relerr(mob[1][0], rm.v3s()) > 1e-9:
+                        fails.append(core.Failure("correspondence", "mobius_area_correction_spherical vs model", "", dict(case, kind="scm")))
+                    fun = calls.minimize[0]["fun"]
+                    stats.monitor("minimize monitored")
+                    if fun(calls.minimize[0]["result"].x) > fun(calls.minimize[0]["x0"]) + 1e-12:
+                        fails.append(core.Failure("monitor", "minimize does not increase the objective", "", dict(case, kind="scm")))
+                    # the objective handed to the optimiser is the model's area-distortion objective (at the start, at the result, at a random point)
+                    for xx in (calls.minimize[0]["x0"], x, np.asarray(x) + 0.05 * gen.rng_for(self.seed, "c18obj").normal(size=8)):
+                        xx = np.asarray(xx, float)
+                        ro = wire.Reply(drv.ask("darea %s %s %s %s" % (wire.verts(m.v), wire.elems(m.t), rawc([xx[0] + 1j * xx[1], xx[2] + 1j * xx[3], xx[4] + 1j * xx[5], xx[6] + 1j * xx[7]]), wire.verts(sph))))
+                        if ro.status != "ok" or abs(float(fun(xx)) - ro.flt()) > 1e-9 * max(1.0, abs(float(fun(xx)))):
+                            fails.append(core.Failure("correspondence", "Moebius area-distortion objective vs model", "at x=%s: implementation %.10g" % (np.round(xx, 3).tolist(), float(fun(xx))), dict(case, kind="scm")))
+                            break
+                    stats.monitor("Moebius objective compared with the model")
         return fails
 
     def known_finding(self, k):
@@ -274,19 +287,26 @@ class Check(BaseCheck):
         r2 = core.call(conformal.spherical_conformal_map, m2)
         if r2[0] != "ok" or np.max(np.abs(r2[1] - s)) > 1e-5:
             return core.Violation("similarity", "map changes under rotation / translation / scaling (max dev %s)" % (np.max(np.abs(r2[1] - s)) if r2[0] == "ok" else r2[1:],), case)
-        mob = core.call(conformal.mobius_area_correction_spherical, m, s)
-        if mob[0] != "ok":
-            return core.Violation("mobius", "raised %s" % (mob[1:],), case)
-        ms = mob[1][0]
-        if np.max(np.abs(np.linalg.norm(ms, axis=1) - 1)) > 1e-9:
-            return core.Violation("mobius", "Moebius image not on the unit sphere", case)
-        z = conformal.stereographic(s); z2 = conformal.stereographic(ms)
-        idx = rng.choice(len(z), size=4, replace=False)
-
         def cr(q):
             return (q[0] - q[2]) * (q[1] - q[3]) / ((q[0] - q[3]) * (q[1] - q[2]))
-        if abs(cr(z[idx]) - cr(z2[idx])) > 1e-6 * max(1, abs(cr(z[idx]))):
-            return core.Violation("mobius", "cross-ratio not preserved", case)
+        jp = len(s) // 3
+        for label, s_in in (("", s), (" (input rotated so that a vertex lies 1e-4 rad from the pole)", near_pole(s, jp, 1e-4))):
+            mob = core.call(conformal.mobius_area_correction_spherical, m, s_in)
+            if mob[0] != "ok":
+                return core.Violation("mobius", "raised %s%s" % (mob[1:], label), case)
+            ms = mob[1][0]
+            if np.max(np.abs(np.linalg.norm(ms, axis=1) - 1)) > 1e-9:
+                return core.Violation("mobius", "Moebius image not on the unit sphere" + label, case)
+            z = conformal.stereographic(s_in); z2 = conformal.stereographic(ms)
+            idx = rng.choice([i for i in range(len(z)) if i != jp], size=4, replace=False)
+            if abs(cr(z[idx]) - cr(z2[idx])) > 1e-6 * max(1, abs(cr(z[idx]))):
+                return core.Violation("mobius", "cross-ratio not preserved" + label, case)
+            with core.quiet():
+                vol_ms = TriaMesh(ms, m.t).volume()
+            if vol_ms <= 0:
+                return core.Violation("mobius", "Moebius image of an outward sphere mesh is inside-out (volume %.3g)%s" % (vol_ms, label), case)
+        mob = core.call(conformal.mobius_area_correction_spherical, m, s)
+        ms = mob[1][0]
 
         def objective(mesh, mp):          # the area-distortion objective by its definition, evaluated independently of the implementation
             with core.quiet():
